@@ -259,6 +259,8 @@ class BoundsAnalysis:
                 if L in ('0',) or (a[0] == '<' and L in ('-1', '0')):
                     return '%s %s %s' % (L, a[0], p)
                 if axis == 'DIAG' and L.startswith('-') and L[1:] in RF.REAL_ATOMS:
+                    if p == 'cd_id' and not (a[0] == '<' and L[1:] in ('self.n_xlines', 'len(self.xlines)')):
+                        continue
                     return '%s %s %s' % (L, a[0], p)
                 if depth < 2 and L != p and not L.lstrip('-').isdigit():
                     r = self._lower(L, facts, axis, depth + 1)
@@ -266,10 +268,48 @@ class BoundsAnalysis:
                         return '%s %s %s (%s)' % (L, a[0], p, r)
         return None
 
+    @staticmethod
+    def _diag_poly(txt):
+        """{'il': a, 'xl': b, 'c': c} for a*n_ilines + b*n_xlines + c, else None"""
+        try:
+            e = ast.parse(txt, mode='eval').body
+        except SyntaxError:
+            return None
+
+        def ev(x):
+            if isinstance(x, ast.Constant) and isinstance(x.value, int):
+                return {'il': 0, 'xl': 0, 'c': x.value}
+            t = U(x)
+            if t in ('self.n_ilines', 'len(self.ilines)'):
+                return {'il': 1, 'xl': 0, 'c': 0}
+            if t in ('self.n_xlines', 'len(self.xlines)'):
+                return {'il': 0, 'xl': 1, 'c': 0}
+            if isinstance(x, ast.UnaryOp) and isinstance(x.op, ast.USub):
+                v = ev(x.operand)
+                return None if v is None else {k: -v[k] for k in v}
+            if isinstance(x, ast.BinOp) and isinstance(x.op, (ast.Add, ast.Sub)):
+                l, r = ev(x.left), ev(x.right)
+                if l is None or r is None:
+                    return None
+                sg = 1 if isinstance(x.op, ast.Add) else -1
+                return {k: l[k] + sg * r[k] for k in l}
+            return None
+        return ev(e)
+
     def _upper(self, p, facts, fm, axis, kind, depth):
         for a in facts:
             if a[0] in ('<', '<=') and a[1] == p:
                 H = a[2]
+                if axis == 'DIAG' and depth == 0 and p in ('ad_id', 'cd_id'):
+                    # the number of diagonals is exact: n_il + n_xl - 1 anticorrelated ones, correlated ids in (-n_xl, n_il)
+                    hp = self._diag_poly(H)
+                    if hp is None:
+                        continue
+                    off = 0 if a[0] == '<' else 1
+                    want = {'il': 1, 'xl': 1, 'c': -1 - off} if p == 'ad_id' else {'il': 1, 'xl': 0, 'c': -off}
+                    if hp == want:
+                        return '%s %s %s' % (p, a[0], H)
+                    continue
                 if RF.is_real_extent(H, axis, facts, fm):
                     if a[0] == '<' or kind == 'end':
                         return '%s %s %s' % (p, a[0], H)
@@ -401,5 +441,6 @@ class BoundsAnalysis:
         if isinstance(a, ast.BinOp) and isinstance(a.op, (ast.Add, ast.Sub)):
             return (isinstance(a.left, ast.Name) and isinstance(a.right, ast.Constant)) or \
                 (isinstance(a.right, ast.Name) and isinstance(a.left, ast.Constant)) or \
-                (U(a.left).startswith('len(') and isinstance(a.right, ast.Name))
+                (U(a.left).startswith('len(') and isinstance(a.right, ast.Name)) or \
+                (isinstance(a.op, ast.Add) and U(a.right).startswith('len(') and isinstance(a.left, ast.Name))
         return False
